@@ -93,6 +93,55 @@ def gen(rng, tier):
                "seed": rng.randrange(1 << 30)}
 
 
+def gen_obj(rng, depth):
+    """objects all the way down (arrays only as leaves), so that selections pass through no index"""
+    if depth <= 0 or rng.random() < 0.25:
+        return rng.choice([1, "s", None, True, 0, "", [1, 2], [], 1.5, {}])
+    ks = rng.sample(NAMES, rng.randint(1, 3))
+    return {k: gen_obj(rng, depth - 1) for k in ks}
+
+
+def key_paths(v, loc=()):
+    out = []
+    if isinstance(v, dict):
+        for k, c in v.items():
+            out.append(loc + (k,))
+            out += key_paths(c, loc + (k,))
+    return out
+
+
+def gen_keys_only(rng, tier):
+    """selections through member names only - nested in one another, repeated, in either order"""
+    for _ in range(1500 if tier == "thorough" else 200):
+        doc = gen_obj(rng, 4)
+        if not isinstance(doc, dict):
+            continue
+        paths = key_paths(doc)
+        if not paths:
+            continue
+        deepest = rng.choice(paths)
+        chosen = [deepest]
+        if len(deepest) > 1 and rng.random() < 0.8:
+            chosen.append(deepest[:rng.randint(1, len(deepest) - 1)])          # an ancestor of it
+        if rng.random() < 0.5:
+            chosen.append(rng.choice(paths))
+        if rng.random() < 0.2:
+            chosen.append(rng.choice(chosen))
+        rng.shuffle(chosen)
+        rels = [{"first": {"fake": False, "segs": [(["sel", ["name", k]] if Q.shorthand_ok(k) and rng.random() < 0.5 else ["list", ["name", k]])
+                                                   for k in p]}, "rest": []} for p in chosen]
+        yield {"style": rng.choice(STYLES), "match": {"first": {"fake": False, "segs": []}, "rest": []}, "rels": rels, "doc": doc,
+               "seed": rng.randrange(1 << 30)}
+
+
+_gen_main = gen
+
+
+def gen(rng, tier):      # noqa: F811
+    yield from _gen_main(rng, tier)
+    yield from gen_keys_only(rng, tier)
+
+
 def texts(case):
     sp = Q.Speller(random.Random(case["seed"]), blanks=0.05)
     return Q.render_query(case["match"], sp), [Q.render_query(r, sp) for r in case["rels"]]
@@ -118,12 +167,17 @@ def impl(case):
 def decode(sx, case):
     if sx[0] == "unsupported":
         return {"model": {}, "spec": {}, "in_domain": False, "skip": True}
-    _, m, spec, dom, wf = sx
+    _, m, spec, dom, wf = sx[:5]
+    search_dom = any(x[0] == "search-domain" and x[1] == "true" for x in sx[5:])
     unsupported = "unsupported" in SX.dump(m)
     mt, rts = texts(case)
     model = {"texts": [mt] + rts, "doc_unchanged": True}
     model["result"] = ["ok", [SX.canon(SX.sx2j(x)) for x in m[1]]] if m[0] == "ok" else ["err", m[1]]
     spec_ = {"result": ["ok", [canon_unordered(SX.canon(SX.sx2j(x))) for x in spec]], "doc_unchanged": True}
+    if dom[1] != "true" and search_dom:
+        # keys-only selections (nested / repeated): outside the theorems' hypothesis but inside the property's
+        # statement with one reading; used to find failing inputs
+        return {"model": model, "spec": spec_, "in_domain": wf[1] == "true" and not unsupported, "skip": unsupported}
     if dom[1] != "true":
         # outside the clause only the read-only part of the property is claimed
         return {"model": model, "spec": {"doc_unchanged": True}, "in_domain": wf[1] == "true", "skip": False,
